@@ -65,6 +65,7 @@
 #include <stack>
 #include <cstddef>
 #include <cctype>
+#include <climits>
 
 namespace calculator
 {
@@ -183,22 +184,95 @@ private:
   /// top of the stack has lower precedence.
   std::stack<OperatorValue> stack_;
 
+  /// Largest and smallest value of T. std::numeric_limits<T> is
+  /// not used as it may not be specialized for __int128_t.
+  static bool isSigned()
+  {
+    return static_cast<T>(-1) < static_cast<T>(1);
+  }
+
+  static T maxValue()
+  {
+    int shift = static_cast<int>(sizeof(T) * CHAR_BIT) - (isSigned() ? 2 : 1);
+    T half = static_cast<T>(static_cast<T>(1) << shift);
+    return static_cast<T>(half - 1 + half);
+  }
+
+  static T minValue()
+  {
+    return isSigned() ? static_cast<T>(-maxValue() - 1) : static_cast<T>(0);
+  }
+
+  T overflow() const
+  {
+    throw calculator::error(expr_, "Error: integer overflow");
+  }
+
+  /// The checked operations below throw a calculator::error if
+  /// the exact result cannot be represented using type T.
+  T add(T a, T b) const
+  {
+    if (b > 0 ? a > maxValue() - b : a < minValue() - b)
+      overflow();
+    return a + b;
+  }
+
+  T sub(T a, T b) const
+  {
+    if (b > 0 ? a < minValue() + b : a > maxValue() + b)
+      overflow();
+    return a - b;
+  }
+
+  T mul(T a, T b) const
+  {
+    if (a > 0 ? (b > 0 ? a > maxValue() / b : b < minValue() / a)
+              : (b > 0 ? a < minValue() / b : a != 0 && b < maxValue() / a))
+      overflow();
+    return a * b;
+  }
+
+  /// Check v1 / v2 and v1 % v2
+  T checkDiv(T v1, T v2) const
+  {
+    if (isSigned() && v1 == minValue() && checkZero(v2) == static_cast<T>(-1))
+      overflow();
+    return checkZero(v2);
+  }
+
+  T shiftLeft(T v1, T v2) const
+  {
+    if (v1 < 0 || v2 < 0 || v2 >= static_cast<T>(sizeof(T) * CHAR_BIT) || v1 > (maxValue() >> v2))
+      overflow();
+    return v1 << v2;
+  }
+
+  T shiftRight(T v1, T v2) const
+  {
+    if (v2 < 0 || v2 >= static_cast<T>(sizeof(T) * CHAR_BIT))
+      overflow();
+    return v1 >> v2;
+  }
+
   /// Exponentiation by squaring, x^n.
-  static T pow(T x, T n)
+  T pow(T x, T n) const
   {
     T res = 1;
+
+    if (n < 0)
+      throw calculator::error(expr_, "Error: negative exponent");
 
     while (n > 0)
     {
       if (n % 2 != 0)
       {
-        res *= x;
+        res = mul(res, x);
         n -= 1;
       }
       n /= 2;
 
       if (n > 0)
-        x *= x;
+        x = mul(x, x);
     }
 
     return res;
@@ -228,15 +302,15 @@ private:
       case OPERATOR_BITWISE_OR:     return v1 | v2;
       case OPERATOR_BITWISE_XOR:    return v1 ^ v2;
       case OPERATOR_BITWISE_AND:    return v1 & v2;
-      case OPERATOR_BITWISE_SHL:    return v1 << v2;
-      case OPERATOR_BITWISE_SHR:    return v1 >> v2;
-      case OPERATOR_ADDITION:       return v1 + v2;
-      case OPERATOR_SUBTRACTION:    return v1 - v2;
-      case OPERATOR_MULTIPLICATION: return v1 * v2;
-      case OPERATOR_DIVISION:       return v1 / checkZero(v2);
-      case OPERATOR_MODULO:         return v1 % checkZero(v2);
+      case OPERATOR_BITWISE_SHL:    return shiftLeft(v1, v2);
+      case OPERATOR_BITWISE_SHR:    return shiftRight(v1, v2);
+      case OPERATOR_ADDITION:       return add(v1, v2);
+      case OPERATOR_SUBTRACTION:    return sub(v1, v2);
+      case OPERATOR_MULTIPLICATION: return mul(v1, v2);
+      case OPERATOR_DIVISION:       return v1 / checkDiv(v1, v2);
+      case OPERATOR_MODULO:         return v1 % checkDiv(v1, v2);
       case OPERATOR_POWER:          return pow(v1, v2);
-      case OPERATOR_EXPONENT:       return v1 * pow(10, v2);
+      case OPERATOR_EXPONENT:       return mul(v1, pow(10, v2));
       default:                      return 0;
     }
   }
@@ -329,7 +403,7 @@ private:
   {
     T value = 0;
     for (T d; (d = getInteger()) <= 9; index_++)
-      value = value * 10 + d;
+      value = add(mul(value, 10), d);
     return value;
   }
 
@@ -338,7 +412,7 @@ private:
     index_ = index_ + 2;
     T value = 0;
     for (T h; (h = getInteger()) <= 0xf; index_++)
-      value = value * 0x10 + h;
+      value = add(mul(value, 0x10), h);
     return value;
   }
 
@@ -384,7 +458,7 @@ private:
                 index_++; break;
       case '~': index_++; val = ~parseValue(); break;
       case '+': index_++; val =  parseValue(); break;
-      case '-': index_++; val =  parseValue() * static_cast<T>(-1);
+      case '-': index_++; val =  sub(0, parseValue());
                 break;
       default : if (!isEnd())
                   unexpected();
